@@ -288,6 +288,12 @@ func runClientScenario(t *testing.T, sc *cliScenario, pickFn func(int) int) *cli
 					tag := op.Arg
 					ctx, cancel := context.WithCancel(context.Background())
 					r.mu.Lock()
+					if len(r.cancels)%2 == 1 {
+						// every other operation: a context that is cancelled WITH A CAUSE - its own error
+						// (ctx.Err) is still context.Canceled, and that is what the operation must return
+						cctx, ccancel := context.WithCancelCause(context.Background())
+						ctx, cancel = cctx, func() { ccancel(errors.New("caller gave up")) }
+					}
 					r.cancels[tag] = cancel
 					r.mu.Unlock()
 					r.logf("%s %s %s", op.Kind, tag, op.Arg2)
